@@ -48,9 +48,26 @@ package lungo
 //@   requires t != nil
 //@   modifies nothing
 //@   ensures [C03] result == t.catalog
+// Clean: retention removes a prefix of the change log and nothing else (C08):
+// what is left of the oplog is the old list from some position d on, in order.
+//@ define wfDocsR(s) = s != nil && s.Index != nil &&
+//@   forall(k, 0, len(s.List), has(s.Index, s.List[k]) && s.Index[s.List[k]] == k) &&
+//@   all(d, Ref, imp(has(s.Index, d), 0 <= s.Index[d] && s.Index[d] < len(s.List) && s.List[s.Index[d]] == d))
+//@ define ownDocsR(s) = alloc(s.Index) > alloc(s) && (cap(s.List) == 0 || alloc(s.List.base) > alloc(s))
+//@ define oplogList(t) = t.catalog.Namespaces[Oplog].Documents.List
 //@ func (*Transaction).Clean
-//@   trusted
-//@   modifies t.catalog, t.dirty
+//@   tags C08 C02 C03
+//@   opt loopframe = on
+//@   locals clone oplog dropped i
+//@   requires t != nil && t.catalog != nil && t.catalog.Namespaces != nil && has(t.catalog.Namespaces, Oplog) && t.catalog.Namespaces[Oplog] != nil
+//@   modifies t.catalog, t.dirty, ghost.tainted, ghost.cov, ghost.tree
+//@   ensures [C08 name=prefix-only] t.catalog != nil && t.catalog.Namespaces != nil && has(t.catalog.Namespaces, Oplog) && any(d, Int, 0 <= d && len(oplogList(t)) == old(len(oplogList(t))) - d && forall(k, 0, len(oplogList(t)), oplogList(t)[k] == old(oplogList(t)[k + d])))
+//@   ensures [C08,C03 name=old-log-untouched] imp(t.catalog != old(t.catalog), fresh(t.catalog) && fresh(t.catalog.Namespaces[Oplog]) && fresh(t.catalog.Namespaces[Oplog].Documents))
+//@   loop 0 invariant 0 <= dropped && dropped == rangeindex + 1 && dropped <= len(oplog.Documents.List)
+//@   loop 1 invariant oplog != nil && fresh(oplog) && oplog.Documents != nil && fresh(oplog.Documents) && wfDocsR(oplog.Documents) && ownDocsR(oplog.Documents) && t.catalog == old(t.catalog) && t.dirty == old(t.dirty)
+//@   loop 1 invariant 0 <= i && i <= dropped && dropped <= before(len(oplog.Documents.List)) && len(oplog.Documents.List) == before(len(oplog.Documents.List)) - i
+//@   loop 1 invariant forall(k, 0, len(oplog.Documents.List), oplog.Documents.List[k] == before(oplog.Documents.List[k + i]))
+//@   loop 1 invariant clone != nil && fresh(clone) && clone.Namespaces != nil && fresh(clone.Namespaces) && has(clone.Namespaces, Oplog) && clone.Namespaces[Oplog] == oplog
 //@ func (*Session).Transaction
 //@   tags C16
 //@   requires s != nil
@@ -109,33 +126,38 @@ package lungo
 
 //@ func (*Transaction).append
 //@   trusted
-//@   modifies since(oplog), ghost.tainted
+//@   modifies since(oplog), ghost.tainted, ghost.cov, ghost.tree
 //@   ensures imp(err == nil, ghost.tainted == old(ghost.tainted)) && imp(err != nil, ghost.tainted == upd(old(ghost.tainted), oplog, true))
 
 //@ func (*Transaction).insert
 //@   tags C02
 //@   requires t != nil && oplog != nil && namespace != nil && doc != nil
-//@   modifies since(oplog), since(namespace), *doc, ghost.tainted
+//@   modifies since(oplog), since(namespace), *doc, ghost.tainted, ghost.cov, ghost.tree
 //@   ensures [C02 name=success-clean] imp(err == nil, ghost.tainted == old(ghost.tainted) && result0 != nil)
 //@   ensures [C02 name=failure-confined] imp(err != nil, onlyTaints2(oplog, namespace))
 //@ func (*Transaction).replace
 //@   tags C02
 //@   requires t != nil && oplog != nil && namespace != nil
-//@   modifies since(oplog), since(namespace), *repl, ghost.tainted
+//@   modifies since(oplog), since(namespace), *repl, ghost.tainted, ghost.cov, ghost.tree
 //@   ensures [C02 name=success-clean] imp(err == nil, ghost.tainted == old(ghost.tainted) && result0 != nil)
 //@   ensures [C02 name=failure-confined] imp(err != nil, onlyTaints2(oplog, namespace))
 //@ func (*Transaction).update
 //@   tags C02
 //@   requires t != nil && oplog != nil && namespace != nil
-//@   modifies since(oplog), since(namespace), ghost.tainted
+//@   modifies since(oplog), since(namespace), ghost.tainted, ghost.cov, ghost.tree
 //@   ensures [C02 name=success-clean] imp(err == nil, ghost.tainted == old(ghost.tainted) && result0 != nil)
 //@   ensures [C02 name=failure-confined] imp(err != nil, onlyTaints2(oplog, namespace))
 //@   loop 0 invariant ghost.tainted == old(ghost.tainted) && res != nil
 //@   locals res err i doc
+// ghost.removed: how many documents the delete helper has removed so far (a
+// history counter: every successful call adds the number of documents it matched).
+//@ define removedBy(n) = old(ghost.removed) + n
+//@ ghost removed Int
 //@ func (*Transaction).delete
-//@   tags C02
+//@   tags C02 C19
 //@   requires t != nil && oplog != nil && namespace != nil
-//@   modifies since(oplog), since(namespace), ghost.tainted
+//@   modifies since(oplog), since(namespace), ghost.tainted, ghost.cov, ghost.tree, ghost.removed
+//@   ensures [ghostdef] imp(err == nil, ghost.removed == removedBy(len(result0.Matched))) && imp(err != nil, ghost.removed == old(ghost.removed))
 //@   ensures [C02 name=success-clean] imp(err == nil, ghost.tainted == old(ghost.tainted) && result0 != nil)
 //@   ensures [C02 name=failure-confined] imp(err != nil, onlyTaints2(oplog, namespace))
 //@   loop 0 invariant ghost.tainted == old(ghost.tainted) && res != nil
@@ -150,7 +172,7 @@ package lungo
 //@   opt loopframe = on
 //@   locals err clone result doc namespace oplog res
 //@   requires t != nil && cleanCatalog(t.catalog) && has(t.catalog.Namespaces, Oplog) && t.catalog.Namespaces[Oplog] != nil
-//@   modifies t.catalog, t.dirty, ghost.tainted
+//@   modifies t.catalog, t.dirty, ghost.tainted, ghost.cov, ghost.tree
 //@   ensures [C02 name=error-leaves-state] imp(err != nil, t.catalog == old(t.catalog) && t.dirty == old(t.dirty))
 //@   ensures [C02,C15 lemma name=only-fresh-tainted] all(x, Ref, imp(preexisting(x), ghost.tainted[x] == old(ghost.tainted)[x]))
 //@   ensures [C02,C15 lemma name=old-or-clean-clone] t.catalog == old(t.catalog) || cleanCatalog(t.catalog)
@@ -168,7 +190,7 @@ package lungo
 //@   opt loopframe = on
 //@   locals err clone changes results op namespace oplog res
 //@   requires t != nil && cleanCatalog(t.catalog) && has(t.catalog.Namespaces, Oplog) && t.catalog.Namespaces[Oplog] != nil
-//@   modifies t.catalog, t.dirty, ghost.tainted
+//@   modifies t.catalog, t.dirty, ghost.tainted, ghost.cov, ghost.tree
 //@   ensures [C02 name=error-leaves-state] imp(err != nil, t.catalog == old(t.catalog) && t.dirty == old(t.dirty))
 //@   ensures [C02,C15 lemma name=only-fresh-tainted] all(x, Ref, imp(preexisting(x), ghost.tainted[x] == old(ghost.tainted)[x]))
 //@   ensures [C02,C15 lemma name=old-or-clean-clone] t.catalog == old(t.catalog) || cleanCatalog(t.catalog)
@@ -181,19 +203,19 @@ package lungo
 //@ func (*Transaction).Create
 //@   tags C02 C03 C15
 //@   requires t != nil && cleanCatalog(t.catalog)
-//@   modifies t.catalog, t.dirty, ghost.tainted
+//@   modifies t.catalog, t.dirty, ghost.tainted, ghost.cov, ghost.tree
 //@   ensures [C02 name=error-leaves-state] imp(err != nil, t.catalog == old(t.catalog) && t.dirty == old(t.dirty))
 //@   ensures [C02,C15 name=published-clean] cleanCatalog(t.catalog)
 //@ func (*Transaction).CreateIndex
 //@   tags C02 C03 C15
 //@   requires t != nil && cleanCatalog(t.catalog)
-//@   modifies t.catalog, t.dirty, ghost.tainted
+//@   modifies t.catalog, t.dirty, ghost.tainted, ghost.cov, ghost.tree
 //@   ensures [C02 name=error-leaves-state] imp(err != nil, t.catalog == old(t.catalog) && t.dirty == old(t.dirty))
 //@   ensures [C02,C15 name=published-clean] cleanCatalog(t.catalog)
 //@ func (*Transaction).DropIndex
 //@   tags C02 C03 C15
 //@   requires t != nil && cleanCatalog(t.catalog)
-//@   modifies t.catalog, t.dirty, ghost.tainted
+//@   modifies t.catalog, t.dirty, ghost.tainted, ghost.cov, ghost.tree
 //@   ensures [C02 name=error-leaves-state] imp(err != nil, t.catalog == old(t.catalog) && t.dirty == old(t.dirty))
 //@   ensures [C02,C15 name=published-clean] cleanCatalog(t.catalog)
 
@@ -201,21 +223,41 @@ package lungo
 //@   tags C02 C03 C15
 //@   requires repl != nil
 //@   requires t != nil && cleanCatalog(t.catalog) && has(t.catalog.Namespaces, Oplog) && t.catalog.Namespaces[Oplog] != nil
-//@   modifies t.catalog, t.dirty, ghost.tainted
+//@   modifies t.catalog, t.dirty, ghost.tainted, ghost.cov, ghost.tree
 //@   ensures [C02 name=error-leaves-state] imp(err != nil, t.catalog == old(t.catalog) && t.dirty == old(t.dirty))
 //@   ensures [C02,C15 name=published-clean] cleanCatalog(t.catalog)
 //@ func (*Transaction).Update
 //@   tags C02 C03 C15
 //@   requires t != nil && cleanCatalog(t.catalog) && has(t.catalog.Namespaces, Oplog) && t.catalog.Namespaces[Oplog] != nil
-//@   modifies t.catalog, t.dirty, ghost.tainted
+//@   modifies t.catalog, t.dirty, ghost.tainted, ghost.cov, ghost.tree
 //@   ensures [C02 name=error-leaves-state] imp(err != nil, t.catalog == old(t.catalog) && t.dirty == old(t.dirty))
 //@   ensures [C02,C15 name=published-clean] cleanCatalog(t.catalog)
 //@ func (*Transaction).Delete
 //@   tags C02 C03 C15
 //@   requires t != nil && cleanCatalog(t.catalog) && has(t.catalog.Namespaces, Oplog) && t.catalog.Namespaces[Oplog] != nil
-//@   modifies t.catalog, t.dirty, ghost.tainted
+//@   modifies t.catalog, t.dirty, ghost.tainted, ghost.cov, ghost.tree
 //@   ensures [C02 name=error-leaves-state] imp(err != nil, t.catalog == old(t.catalog) && t.dirty == old(t.dirty))
 //@   ensures [C02,C15 name=published-clean] cleanCatalog(t.catalog)
+
+// Expire (C19): the pass publishes its working catalog exactly when some
+// collection lost documents - a pass that expired something anywhere is not
+// dropped, a pass that expired nothing changes nothing - and an error leaves
+// the transaction as it was.
+//@ func (*Transaction).Expire
+//@   tags C19 C02 C03
+//@   opt loopframe = on
+//@   opt overflow = checked
+//@   locals clone oplog deletions ttlIndexes
+//@   requires t != nil && cleanCatalog(t.catalog) && has(t.catalog.Namespaces, Oplog) && t.catalog.Namespaces[Oplog] != nil
+//@   requires all(h, "(Array Int Str)", imp(has(t.catalog.Namespaces, h), t.catalog.Namespaces[h] != nil))
+//@   modifies t.catalog, t.dirty, ghost.tainted, ghost.cov, ghost.tree, ghost.removed
+//@   ensures [C02 name=error-leaves-state] imp(result != nil, t.catalog == old(t.catalog) && t.dirty == old(t.dirty))
+//@   ensures [C19 name=deletions-published] imp(result == nil && ghost.removed > old(ghost.removed), t.catalog != old(t.catalog) && t.dirty)
+//@   ensures [C19 name=nothing-deleted-nothing-published] imp(result == nil && ghost.removed == old(ghost.removed), t.catalog == old(t.catalog) && t.dirty == old(t.dirty))
+//@   loop 0 invariant deletions >= 0 && deletions == ghost.removed - old(ghost.removed) && t.catalog == old(t.catalog) && t.dirty == old(t.dirty)
+//@   loop 0 invariant clone != nil && fresh(clone) && clone.Namespaces != nil && fresh(clone.Namespaces) && oplog != nil && fresh(oplog)
+//@   loop 1 invariant cap(ttlIndexes) == 0 || fresh(ttlIndexes)
+//@   loop 2 invariant true
 
 // ---------------------------------------------------------------------------
 // utils.go / session.go: every way of running a write finishes it. The callback
